@@ -288,6 +288,11 @@ def history_s(draw, pid, tier, conf=None, max_clients=None, distinct_ids=False, 
             pos[i] += 1
     for i in range(nscripts):
         events.extend(scripts[i][pos[i]:])
+    if pid in ("C01", "C02", "C03", "C10") and events and draw(st.integers(0, 11)) == 0:
+        # the operator edits iauth.timeout and reloads while requests are pending: requests keep the timer (or the
+        # absence of one) they were announced with, new ones follow the new setting
+        for _ in range(draw(st.integers(1, 2))):
+            events.insert(draw(st.integers(1, len(events))), ["reconf", {"timeout": draw(st.sampled_from([0, 0, 30, 45]))}])
     return {"conf": conf, "events": events}
 
 
@@ -379,6 +384,7 @@ def run_lockstep(case, workdir, stop_on_violation=False, spec_hook=None):
             return tr
         spec = proto.Spec(conf, policies_of(tr.banner))
         tr.spec = spec
+        curconf = case["conf"]
         for i, ev in enumerate(case["events"]):
             if ev[0] == "sleep":
                 time.sleep(ev[1])
@@ -391,6 +397,24 @@ def run_lockstep(case, workdir, stop_on_violation=False, spec_hook=None):
                 out = [b.decode("latin-1") for b in o1 + o2]
                 spec.feed_sleep(i)
                 tr.steps.append(("(sleep %.1fs)" % ev[1], out, in_use))
+                spec.feed_output(i, out)
+                spec.check_in_use(in_use)
+                continue
+            if ev[0] == "reconf":
+                curconf = dict(curconf, **ev[1])
+                try:
+                    out, in_use, _ = d.reload(conf_text(curconf))
+                except dm.DaemonDied as e:
+                    tr.died = True
+                    break
+                except dm.DaemonHang:
+                    tr.hang = True
+                    break
+                spec.conf = proto.Conf(curconf)
+                spec.step, spec.in_kind, spec.in_client, spec.reply_ctx = i, "server", None, None
+                spec.classes.add("reload_changes_timeout")
+                out = [b.decode("latin-1") for b in out]
+                tr.steps.append(("(reload %r)" % ev[1], out, in_use))
                 spec.feed_output(i, out)
                 spec.check_in_use(in_use)
                 continue
@@ -482,7 +506,7 @@ def c10_s(draw, pid, tier):
         # a long history: the generated block repeated R times on shifting (and recurring) ids,
         # hundreds to thousands of clients through one daemon
         R = draw(st.sampled_from([20, 50, 120] if tier == "quick" else [100, 400, 1500]))
-        block = [e for e in base["events"] if e[0] != "raw"]
+        block = [e for e in base["events"] if e[0] not in ("raw", "reconf")]
         events = []
         for r in range(R):
             shift = (r % 7) * 41
